@@ -80,6 +80,10 @@ def chain_op(line, index):
     return ' '.join(f)
 
 
+# the position (field after the op name) of the second document of the binary operations
+TEXT_ARG = {'concat': 2, 'array_insert': 3, 'array_intersection': 2, 'array_except': 2, 'object_insert': 3}
+
+
 # operations that write into a caller's buffer: in a chain the buffer may already hold the previous result
 BUF_OPS = ('concat', 'delete_by_name', 'delete_by_index', 'delete_by_keypath', 'array_insert', 'array_distinct', 'array_intersection',
            'array_except', 'object_insert', 'object_delete', 'object_pick', 'strip_nulls', 'build_array', 'build_object', 'select')
@@ -124,12 +128,24 @@ def judge(ctx):
     clean = [True] * len(chains)
     for rnd in range(rounds):
         lines = []
-        pres = {}
+        pres, texts = {}, {}
         for k, regs in enumerate(chains):
             op = pick_op(ctx, regs)
             # a chain collects its results in ONE buffer as often as in fresh ones: the step then appends to a buffer that holds
             # the previous result (the theorem is run_bp: any output prefix), and what it appends must be the same document
             name = op.split(' ', 1)[0]
+            # the NEW argument of a step given as a JSON text literal while the current document is the JSONB result of the step
+            # before (the dispatch on the argument forms is part of every operation): same result as with its encoding
+            if name in TEXT_ARG and r.random() < 0.3:
+                f = op.split(' ')
+                by_hex = {gen.hexarg(d): v for d, v in regs}
+                w = by_hex.get(f[TEXT_ARG[name]])
+                if w is not None and gen.is_finite(w) and gen.text_form(w) == w:
+                    t = gen.json_text(w, r)
+                    if t[:1] != b' ':
+                        texts[k] = (TEXT_ARG[name], f[TEXT_ARG[name]])
+                        f[TEXT_ARG[name]] = gen.hexarg(t)
+                        op = ' '.join(f)
             if name in BUF_OPS and len(regs[-1][0]) <= 4000 and r.random() < 0.4:
                 pres[k] = regs[-1][0]
                 op = '%s@%s %s' % (name, regs[-1][0].hex(), op.split(' ', 1)[1])
@@ -151,6 +167,11 @@ def judge(ctx):
                 ctx.violate('a chain step differs from the same step on the tree', case=line, step=rnd, expected_by_model=mo, observed=io)
                 clean[k] = False
                 continue
+            if k in texts:
+                ctx.count('steps_with_the_new_argument_as_json_text')
+                f = line.split(' ')
+                f[texts[k][0]] = texts[k][1]
+                line = ' '.join(f)
             pre = pres.get(k, b'')
             if pre:
                 ctx.count('steps_appending_to_a_buffer_that_holds_the_previous_result')
